@@ -127,6 +127,11 @@ func (i *liveInfo) HandleShipHandshakeStateUpdate(ski string, s model.ShipState)
 	i.real.HandleShipHandshakeStateUpdate(ski, s)
 }
 func (i *liveInfo) SetupRemoteDevice(ski string, w api.ShipConnectionDataWriterInterface) api.ShipConnectionDataReaderInterface {
+	if d := i.lc.n.holdComplete; d > 0 {
+		// the goroutine that completes the handshake is held for a moment just before it sets the device up (a legal schedule:
+		// it may be preempted there), so that a close from another goroutine falls before the set-up
+		time.Sleep(d)
+	}
 	i.lc.ev("c.setup", "1", "")
 	r := i.real.SetupRemoteDevice(ski, w)
 	if r == nil {
